@@ -161,13 +161,13 @@ struct Interp : Sink
 	std::vector<Frame> frames;
 	int fuel;
 	uint64_t logHash;
-	Rng aux;
+	Rng aux, fillRng;
 	int nEvents;
 	bool sawWrapRelaxation;
 	std::vector<long> passedPerOp;   // fault points passed by each top-level operation (fault-free run)
 	int depthMax;
 
-	Interp(const Plan & p, bool fm) : plan(p), faultMode(fm), fuel(0), logHash(kHashInit), aux(p.schedSeed() ^ 0x1234567), sawWrapRelaxation(false), depthMax(0)
+	Interp(const Plan & p, bool fm) : plan(p), faultMode(fm), fuel(0), logHash(kHashInit), aux(p.schedSeed() ^ 0x1234567), fillRng(p.schedSeed() ^ 0xf111), sawWrapRelaxation(false), depthMax(0)
 	{
 		for(int i = 0; i < MAXSLOT; ++i) { slotObj[i] = -1; slotEv[i] = 0; slotUsed[i] = false; slotUnusable[i] = false; cbScript[i] = 0; }
 		nEvents = Box::isDispatcher ? MAXEVT : 1;
@@ -602,7 +602,7 @@ struct Interp : Sink
 
 	void construct(int o, int src, bool move)
 	{
-		store[o].fill(plan.user(U_FILL) == 4 ? (int)aux.below(4) : plan.user(U_FILL), aux);
+		store[o].fill(plan.user(U_FILL) == 4 ? (int)fillRng.below(4) : plan.user(U_FILL), fillRng);   // its own stream: the fill pattern must not influence any other choice
 		++counters.dirtyConstructions;
 		{
 			FaultArm arm;
@@ -665,7 +665,7 @@ struct Interp : Sink
 				}
 				if(Box::isEmpty(real(o), e) != want.empty()) { viol.raise("empty-result", std::string(when) + ": empty() disagrees with the content " + seq::join(want)); break; }
 				for(size_t i = 0; i < seen.size(); ++i) log((uint64_t)seen[i] + 101);
-				log(0xabcdef);
+				if(e == 0 || !seen.empty()) log(0xabcdef);   // (a list and a dispatcher with unused events must log alike: C20 compares these hashes)
 			}
 			for(int s = 0; s < MAXSLOT && !viol.set; ++s) {
 				if(!slotUsed[s] || slotUnusable[s]) continue;
@@ -963,12 +963,12 @@ struct Gen
 		int variant;
 		if(mode == "c01") { static const int v[] = { V_LIST_SINGLE, V_LIST_MULTI, V_LIST_CUSTOMCB, V_LIST_CUSTOMCB }; variant = v[rng.below(4)]; }
 		else if(mode == "c19") { static const int v[] = { V_LIST_SINGLE, V_LIST_MULTI, V_LIST_SIM }; variant = v[rng.below(3)]; }
-		else if(mode == "c20") variant = (int)rng.below(3) == 0 ? V_DISP_DEFAULT : V_LIST_MULTI; // the matrix builds choose the policies; see cfg stage
+		else if(mode == "c20") variant = V_LIST_MULTI; // execute() runs the plan under every policy variant and fill pattern
 		else variant = (int)rng.below(V_COUNT);
 		plan.user(U_VARIANT) = variant;
 		disp = variant >= V_DISP_DEFAULT;
 		util = variant == V_LIST_CUSTOMCB || variant == V_DISP_CUSTOMCB;
-		canWarp = !disp;
+		canWarp = !disp && mode != "c20";
 		nEvents = disp ? 2 + (int)rng.below(2) : 1;
 		nObj = pool ? 2 + (int)rng.below(2) : 1;
 		plan.user(U_OBJECTS) = pool ? 1 + (int)rng.below((uint32_t)nObj) : 1;
@@ -1029,7 +1029,26 @@ void execute(const Plan & plan, RunOut & out)
 {
 	seq::installHooks();
 	const int v = plan.user(sl::U_VARIANT);
-	sl::runVariant(v, plan, out);
+	if(mode == "c20") {
+		// the same plan under every Threading x Map x Callback variant and three storage fill patterns: one event log
+		uint64_t ref = 0; bool have = false; long sub = 0;
+		for(int vv = 0; vv < sl::V_COUNT && !out.violation; ++vv) {
+			for(int fill = 0; fill < 3 && !out.violation; ++fill) {
+				Plan p2 = plan;
+				p2.user(sl::U_VARIANT) = vv; p2.user(sl::U_FILL) = fill;
+				RunOut o2;
+				sl::runVariant(vv, p2, o2);
+				++sub;
+				if(o2.violation) out.fail(o2.cls, "[policy variant " + std::to_string(vv) + ", fill pattern " + std::to_string(fill) + "] " + o2.detail);
+				else if(!have) { ref = o2.logHash; have = true; }
+				else if(o2.logHash != ref) out.fail("configuration-dependent-behaviour", "policy variant " + std::to_string(vv) + " with fill pattern " + std::to_string(fill) + " produced a different event log than variant 0 / fill 0 for the same plan");
+				out.caseHash = o2.caseHash;
+			}
+		}
+		out.logHash = ref; out.subRuns = sub;
+		out.steps = (long)(plan.tasks.empty() ? 0 : plan.tasks[0].size());
+	}
+	else sl::runVariant(v, plan, out);
 	++sl::counters.plans;
 	if(v >= 0 && v < sl::V_COUNT) ++sl::counters.perVariant[v];
 	// non-trivial: the plan contains at least one operation of the mode's focus kind
